@@ -109,11 +109,11 @@ func identityBundleFor(reg *template.Registry) *identityBundle {
 }
 
 type c12case struct {
-	Files   map[string]string `json:"files"`
-	Data    string            `json:"data"`
-	Bundle  bool              `json:"with_message_bundle"`
-	Fault   string            `json:"fault"`
-	Output  string            `json:"fault_free_output"`
+	Files  map[string]string `json:"files"`
+	Data   string            `json:"data"`
+	Bundle bool              `json:"with_message_bundle"`
+	Fault  string            `json:"fault"`
+	Output string            `json:"fault_free_output"`
 }
 
 func c12Fixed() []string {
